@@ -263,8 +263,11 @@ Definition wf_resource (v : value) : bool :=
   | VDict [(_, _)] => true
   | _ => wf_field v
   end.
+(* a statement may also carry a Condition block: none of the queries of this property looks at it (an Allow statement counts
+   whether or not it is conditional), so the record has no field for it *)
+Definition K_Condition_blk : str := [67;111;110;100;105;116;105;111;110]%N. (* "Condition" *)
 Definition STMT_KEYS : list str :=
-  [K_Sid; K_Effect; K_Principal; K_NotPrincipal; K_Action; K_NotAction; K_Resource; K_NotResource].
+  [K_Sid; K_Effect; K_Principal; K_NotPrincipal; K_Action; K_NotAction; K_Resource; K_NotResource; K_Condition_blk].
 Definition wf_stmt_raw (v : value) : bool :=
   match v with
   | VDict d =>
